@@ -18,7 +18,11 @@ Init == l = 1 /\ cfg = [k |-> 0] /\ begun = {} /\ ended = {} /\ bodyFailed = FAL
 Reset == IsEv("reset") /\ cfg' = Ev /\ begun' = {} /\ ended' = {} /\ bodyFailed' = FALSE /\ handlerFailed' = FALSE
 HandlerId(h) == CASE h = "success" -> "s1" [] h = "fail" -> "f1" [] OTHER -> "y1"
 IsHandlerProbe(id) == id \in {"s1", "f1", "y1"}
+\* nested = "try": the body's first command is itself a try block (body n1, finally handler n2, both succeeding):
+\* everything it runs belongs to the outer body
 BodyIds == { cfg.body[i] : i \in 1..Len(cfg.body) } \cup (IF cfg.nested # "none" THEN {"n1"} ELSE {})
+           \cup (IF cfg.nested = "try" THEN {"n2"} ELSE {})
+           \cup (IF cfg.nested = "try2" THEN {"n2", "n3"} ELSE {})      \* nested try whose finally (n3) fails while its success handler (n2) still runs
 Begin == /\ IsEv("begin") /\ Ev.id \notin begun
          /\ (IsHandlerProbe(Ev.id) =>
                /\ begun \cap BodyIds \subseteq ended                         \* nothing of the body (or its nested task) is still running
